@@ -40,8 +40,17 @@ type ECall struct {
 type EQuant struct {
 	Forall bool
 	Var    string
+	VarTyp string // "" / "int": integer variable; "string": string variable (map keys)
 	Lo, Hi Expr // nil when unbounded
 	Body   Expr
+}
+
+// varSort is the SMT sort of the bound variable.
+func (q *EQuant) varSort() Sort {
+	if q.VarTyp == "string" {
+		return SStr
+	}
+	return SInt
 }
 type ECond struct{ C, A, B Expr }
 
@@ -253,6 +262,18 @@ func (ps *parser) unary() (Expr, error) {
 			return nil, fmt.Errorf("quantifier variable expected at %d in %q", v.pos, ps.src)
 		}
 		q := &EQuant{Forall: t.text == "forall", Var: v.text}
+		if ps.peek().kind == "ident" && (ps.peek().text == "string" || ps.peek().text == "int") {
+			q.VarTyp = ps.next().text
+		} else if ps.peek().kind == "op" && ps.peek().text == "*" {
+			// "*T": the variable ranges over the references to objects of
+			// the named struct type T of the contract's package
+			ps.next()
+			tn := ps.next()
+			if tn.kind != "ident" {
+				return nil, fmt.Errorf("type name expected after * at %d in %q", tn.pos, ps.src)
+			}
+			q.VarTyp = "*" + tn.text
+		}
 		if ps.peek().kind == "ident" && ps.peek().text == "in" {
 			ps.next()
 			lo, err := ps.expr(7)
